@@ -34,6 +34,7 @@ func genParamsNet(w io.Writer) {
 	n("g_ecies_overhead", p2p.VerifEciesOverhead, "p2p/rlpx.go eciesOverhead")
 	n("g_enc_auth_msg_len", p2p.VerifEncAuthMsgLen, "p2p/rlpx.go encAuthMsgLen")
 	n("g_enc_auth_resp_len", p2p.VerifEncAuthRespLen, "p2p/rlpx.go encAuthRespLen")
+	n("g_disc_table_len", uint64(p2p.VerifDiscTableLen()), "p2p/peer_error.go len(discReasonToString)")
 	n("g_handshake_timeout_ms", uint64(p2p.VerifHandshakeTimeout/time.Millisecond), "p2p/rlpx.go handshakeTimeout")
 	n("g_frame_read_timeout_ms", uint64(p2p.VerifFrameReadTimeout/time.Millisecond), "p2p/server.go frameReadTimeout")
 	zh := []string{}
